@@ -263,6 +263,30 @@ def run_case(spec, j):
                     query_indices=qi[:6],
                     preprocessor_calls=mp.n_calls if mp else None)
 
+  # ----- the preprocessor is consulted at the time of the call: a list that
+  # the caller edited in place since the last fit holds other points now
+  if spec['kind'] == 'list' and isinstance(prep, list) and n >= 6:
+    X2 = np.array(Xp, dtype=float, copy=True)
+    X2[:n] = X2[:n] * 1.25 + 0.5 * rng.randn(n, d)
+    for i_ in range(len(prep)):
+      prep[i_] = X2[i_].tolist()          # in place: same list object
+    with Quiet():
+      try:
+        B2 = E.cls(name)(**params).fit(
+            *((X2[np.asarray(argsA[0])],) + tuple(argsB[1:])))
+        A.fit(*argsA)
+        sameA = np.array_equal(np.asarray(A.components_),
+                               np.asarray(B2.components_), equal_nan=True)
+        qa = A.pair_distance(pi)
+        qb = B2.pair_distance(X2[pi])
+        j.check('C05.fit-state', sameA and
+                np.array_equal(qa, qb, equal_nan=True),
+                dict(det, phase='after the list was edited in place'))
+      except Exception as e:
+        if not (name.startswith('SDML') and isinstance(e, RuntimeError)):
+          j.violated('C05.fit-state',
+                     dict(det, phase='after the list was edited in place',
+                          raised=repr(e)[:200]))
   # ----- error surfacing
   from metric_learn.exceptions import PreprocessorError
 
